@@ -15,7 +15,7 @@ REQUIRED_THEOREMS = ['Usid.C15.budget', 'Usid.C15.monotone', 'Usid.C15.cores_bou
                      'Usid.C15.recommend_le_request', 'Usid.C15.recommend_total',
                      'Usid.C15.recommend_zero_request_raises', 'Usid.C15.recommend_zero_jobs_raises',
                      'Usid.C15.zero_budget_errors', 'Usid.C15.terminates_all_done', 'Usid.C15.admits_one_row']
-RULE = ('simulated machines (psutil/multiprocessing patched in the harness): sizing cases (logical cores, available '
+RULE = ('[also: min_free_cores (valid, boundary and invalid values); the batch size must be >= 1 whenever the budget admits a row] simulated machines (psutil/multiprocessing patched in the harness): sizing cases (logical cores, available '
         'bytes, max_mem_mb, dyadic multiplier k/8, cores argument, row bytes) each paired with a larger budget; '
         'recommender grid cases; real compute() runs under a SIGALRM watchdog for zero/one/few-row budgets; '
         'non-trivial = budget binds (maxpos < N) or request clipped or zero-row budget')
@@ -36,7 +36,8 @@ def generate(seed, tier):
             nj = rng.choice([rng.randint(1, 200), rng.randint(1, 200), rng.randint(1000, 10 ** 6), 0, -3])
             req = rng.choice([None, None, rng.randint(-2 * logical, 2 * logical), rng.randint(1, logical)])
             cases.append({'kind': 'recommend', 'logical': logical, 'num_jobs': nj, 'requested': req,
-                          'lengthy': rng.random() < 0.4})
+                          'lengthy': rng.random() < 0.4,
+                          'min_free': rng.choice([None, None, None, 0, 1, logical - 1, logical, -1, rng.randint(0, 2 * logical)])})
         elif k in (2, 3, 4):
             m = rng.randint(1, 6)
             dtype = rng.choice(['f4', 'f8', 'c16'])
@@ -118,8 +119,9 @@ def run_impl(inp, work):
     if inp['kind'] == 'recommend':
         from pyUSID.processing import comp_utils
         with Machine(inp['logical'], 10 ** 9):
+            kw = {'min_free_cores': inp['min_free']} if inp.get('min_free') is not None else {}
             r = call(comp_utils.recommend_cpu_cores, inp['num_jobs'], requested_cores=inp['requested'],
-                     lengthy_computation=inp['lengthy'])
+                     lengthy_computation=inp['lengthy'], **kw)
         return {'ok': int(r[1])} if r[0] == 'ok' else {'err': r[1]}
     if inp['kind'] == 'sizing':
         path = _mkfile(work, inp['n'], inp['m'], inp['dtype'])
@@ -179,6 +181,13 @@ def oracle(inp, obs):
     L = inp['logical']
     if inp['kind'] == 'recommend':
         nj, req = inp['num_jobs'], inp['requested']
+        mf = inp.get('min_free')
+        if mf is not None and not (0 <= mf < L):
+            if 'ok' in obs:
+                fails.append('min-free-cores: recommend_cpu_cores accepted min_free_cores=%s on %d logical cores' % (mf, L))
+            return fails
+        if mf is not None and req is None and 'ok' in obs and obs['ok'] > max(1, L - mf):     # (an explicit request is respected)
+            fails.append('min-free-cores: %s cores recommended although %s of %d are to stay free' % (obs['ok'], mf, L))
         if 'ok' in obs:
             if not (1 <= obs['ok'] <= L):
                 fails.append('cores-bounds: recommend_cpu_cores returned %s outside [1, %d]' % (obs['ok'], L))
@@ -197,6 +206,9 @@ def oracle(inp, obs):
                 continue
             if not (1 <= o['cores'] <= L):
                 fails.append('cores-bounds: worker count %s outside [1, %d]' % (o['cores'], L))
+            if o['maxpos'] < 1 and rowb * mult * o['cores'] <= _granted(avail, mb):
+                fails.append('admits-a-row: the granted %d bytes admit one row of %d bytes x %s x %d workers but the batch size is %d'
+                             % (_granted(avail, mb), rowb, mult, o['cores'], o['maxpos']))
             if o['maxpos'] * rowb * mult * o['cores'] > _granted(avail, mb):
                 fails.append('budget: %d positions x %d bytes x %s x %d workers exceeds granted %d bytes'
                              % (o['maxpos'], rowb, mult, o['cores'], _granted(avail, mb)))
@@ -208,7 +220,9 @@ def oracle(inp, obs):
     if obs['result'] == 'timeout':
         fails.append('terminate: compute() did not return within the watchdog (rows admitted: %d)' % inp['rows'])
         return fails
-    if obs['maxpos'] >= 1:
+    if (obs['maxpos'] >= 1) != (inp['rows'] >= 1):
+        fails.append('admits-a-row: the budget admits %d rows per worker but the computed batch size is %d' % (inp['rows'], obs['maxpos']))
+    if obs['maxpos'] >= 1 or inp['rows'] >= 1:
         if obs['result'] != 'ok' or obs['status'] != [1] * inp['n']:
             fails.append('terminate-done: budget admits a row but compute() ended %s with status %s'
                          % (obs['result'], obs['status']))
@@ -242,7 +256,7 @@ def _run_avail(inp, workers):
 def model_requests(inp):
     if inp['kind'] == 'recommend':
         return [{'op': 'gen.recommend', 'logical': inp['logical'], 'num_jobs': inp['num_jobs'],
-                 'requested': inp['requested'], 'min_free': None, 'lengthy': inp['lengthy']}]
+                 'requested': inp['requested'], 'min_free': inp.get('min_free'), 'lengthy': inp['lengthy']}]
     if inp['kind'] == 'sizing':
         out = []
         for avail, mb in ((inp['avail'], inp['mb']), (inp['avail2'], inp['mb2'])):
